@@ -40,6 +40,19 @@ func houdiniCandidates(fn *ssa.Function) map[int][]*Clause {
 				slices = append(slices, p.Comment)
 			}
 		}
+		// slice-typed parameters are loop-invariant candidates for upper bounds
+		var sliceParams []string
+		for _, p := range fn.Params {
+			if _, ok := under(p.Type()).(*types.Slice); ok && isIdent(p.Name()) {
+				sliceParams = append(sliceParams, p.Name())
+			}
+		}
+		for _, x := range ints {
+			for _, s := range append(append([]string{}, slices...), sliceParams...) {
+				e := &SBinary{"<=", &SCall{Fun: &SIdent{"int"}, Args: []SExpr{&SIdent{x}}}, &SCall{Fun: &SIdent{"len"}, Args: []SExpr{&SIdent{s}}}}
+				out[li.Ordinal] = append(out[li.Ordinal], &Clause{Text: fmt.Sprintf("int(%s) <= len(%s) (auto)", x, s), Expr: e})
+			}
+		}
 		for _, s := range slices {
 			for _, x := range ints {
 				e := &SBinary{">=", &SCall{Fun: &SIdent{"len"}, Args: []SExpr{&SIdent{s}}}, &SCall{Fun: &SIdent{"int"}, Args: []SExpr{&SIdent{x}}}}
